@@ -17,6 +17,9 @@ MODULES = {
     "C08": "vlib.props.c08",
     "C09": "vlib.props.c09",
     "C10": "vlib.props.c10",
+    "C11": "vlib.props.c11",
+    "C12": "vlib.props.c12",
+    "C13": "vlib.props.c13",
     "C17": "vlib.props.c17",
     "C06": "vlib.props.c06",
     "C07": "vlib.props.c07",
